@@ -77,6 +77,22 @@ Fixpoint group_firsts (key : string -> list string) (l : list string) (prev : op
       end
   end.
 
+(* python list comparison of segment lists *)
+Fixpoint segs_ltb (a b : list string) : bool :=
+  match a, b with
+  | [], [] => false
+  | [], _ :: _ => true
+  | _ :: _, [] => false
+  | x :: a', y :: b' => if str_ltb x y then true else if str_ltb y x then false else segs_ltb a' b'
+  end.
+Definition path_leb (a b : string) : bool := negb (segs_ltb (split_c "/" b) (split_c "/" a)).
+Fixpoint insert_path (x : string) (l : list string) : list string :=
+  match l with
+  | [] => [x]
+  | y :: t => if path_leb x y then x :: l else y :: insert_path x t
+  end.
+Definition sort_paths (l : list string) : list string := fold_right insert_path [] l.
+
 (* find_glob.sorted_search (as_sid=False) *)
 Definition sorted_search (searches : list sid) (items : list string) : outcome (list string) :=
   match searches with
@@ -86,7 +102,7 @@ Definition sorted_search (searches : list sid) (items : list string) : outcome (
       | None => Raise ValueError
       | Some index =>
           do founds <- concat_mapM (fun q => do q' <- Sid L (replace ">" "*" (uri q)); star_search [q'] items) searches;
-          let sorted_desc := rev (sort_s (nodup_s founds)) in
+          let sorted_desc := rev (sort_paths (nodup_s founds)) in
           Ok (group_firsts (fun x => firstn index (split_c "/" x)) sorted_desc None)
       end
   end.
